@@ -1,1 +1,68 @@
-//! placeholder
+//! Harnesses compiled inside `crate::settings` (private: SettingId::parse/id/is_*).
+#![allow(dead_code, unused_imports, missing_docs)]
+use super::*;
+use crate::verif_kani::contracts::{setting_id_parse_post, setting_id_parse_post_exact};
+use crate::verif_kani::spec;
+
+fn parse_abs(id: VarInt) -> Result<SettingId, bool> {
+    match SettingId::parse(id) {
+        Ok(s) => Ok(s),
+        Err(ParseError::ReservedSetting) => Err(true),
+        Err(ParseError::UnknownSetting) => Err(false),
+    }
+}
+
+#[kani::proof]
+pub fn c_settingid_is_exercise() {
+    let id: VarInt = kani::any();
+    assert!(SettingId::is_exercise(id) == spec::is_grease(id.into_inner()));
+}
+
+#[kani::proof_for_contract(SettingId::is_reserved)]
+pub fn c_settingid_is_reserved() {
+    let id: VarInt = kani::any();
+    let r = SettingId::is_reserved(id);
+    kani::cover!(r);
+    kani::cover!(!r);
+}
+
+/// `SettingId::parse` for all 2^62 ids (GREASE test abstracted by the uninterpreted oracle, whose
+/// identity with the RFC predicate is `c_settingid_is_exercise`): HTTP/2 ids are reserved, GREASE
+/// kept with its id, the seven registered settings, everything else unknown (to be ignored).
+#[kani::proof]
+#[kani::stub(SettingId::is_exercise, crate::verif_kani::oracle::grease_varint)]
+pub fn c_settingid_parse() {
+    crate::verif_kani::oracle::enable();
+    let id: VarInt = kani::any();
+    let r = parse_abs(id);
+    assert!(setting_id_parse_post(id.into_inner(), r));
+    kani::cover!(matches!(r, Err(true)));
+    kani::cover!(matches!(r, Err(false)));
+    kani::cover!(matches!(r, Ok(SettingId::Exercise(_))));
+    kani::cover!(matches!(r, Ok(SettingId::WebTransportMaxSessions)));
+}
+
+/// `id` returns the registry value and `parse(id(s)) == s`: registry values per RFC 9114 §7.2.4.1,
+/// RFC 9204 §5, RFC 9220 §3, RFC 9297 §2.1.1, draft-ietf-webtrans-http3.
+#[kani::proof]
+#[kani::stub(SettingId::is_exercise, crate::verif_kani::oracle::grease_varint)]
+pub fn c_settingid_id() {
+    crate::verif_kani::oracle::enable();
+    let s = crate::verif_kani::arb::any_setting_id_g();
+    // a GREASE setting id is never one of the reserved HTTP/2 ids (p_grease_facts)
+    let id = s.id();
+    assert!(setting_id_parse_post(id.into_inner(), Ok(s)) || matches!(s, SettingId::Exercise(_)));
+    match parse_abs(id) {
+        Ok(back) => {
+            assert!(back == s);
+        }
+        Err(_) => panic!("a registered or GREASE setting id must parse"),
+    }
+    assert!(setting_ids::SETTINGS_QPACK_MAX_TABLE_CAPACITY.into_inner() == 0x01);
+    assert!(setting_ids::SETTINGS_MAX_FIELD_SECTION_SIZE.into_inner() == 0x06);
+    assert!(setting_ids::SETTINGS_QPACK_BLOCKED_STREAMS.into_inner() == 0x07);
+    assert!(setting_ids::SETTINGS_ENABLE_CONNECT_PROTOCOL.into_inner() == 0x08);
+    assert!(setting_ids::SETTINGS_H3_DATAGRAM.into_inner() == 0x33);
+    assert!(setting_ids::SETTINGS_ENABLE_WEBTRANSPORT.into_inner() == 0x2b60_3742);
+    assert!(setting_ids::SETTINGS_WEBTRANSPORT_MAX_SESSIONS.into_inner() == 0xc671_706a);
+}
